@@ -35,10 +35,26 @@ class Crash(Exception):
         self.script = script
 
 
+class _Timeout(Exception):
+    pass
+
+
+def _on_alarm(signum, frame):
+    raise _Timeout()
+
+
+def _arm(seconds):
+    import signal
+    if seconds:
+        signal.signal(signal.SIGALRM, _on_alarm)
+    signal.setitimer(signal.ITIMER_REAL, seconds or 0)
+
+
 class Exec:
     """One persistent executor process."""
 
     def __init__(self, exe, timeout=None):
+        self.timeout = timeout or float(os.environ.get('VERIF_SCRIPT_TIMEOUT', '60'))
         self.exe = exe
         self.p = None
         self.errf = None
@@ -88,26 +104,38 @@ class Exec:
             self._stderr()
             self.p = None
 
-    def run(self, lines, parse=True):
-        """execute one script; returns list of parsed answers (dict, or str starting 'ERR') and sets self.live"""
+    def run(self, lines, parse=True, timeout=None):
+        """execute one script; returns list of parsed answers (dict, or str starting 'ERR') and sets self.live.
+        A script that does not answer within the time limit is an observation too: the executor is killed and Crash
+        (kind 'timeout') is raised."""
         if not self.p:
             self.start()
         data = ('\n'.join(lines) + '\n.\n').encode()
+        _arm(timeout or self.timeout)
         try:
-            self.p.stdin.write(data)
-            self.p.stdin.flush()
-        except (BrokenPipeError, OSError):
-            return self._crashed(lines)
-        out = []
-        rd = self.p.stdout
-        while True:
-            l = rd.readline()
-            if not l:
+            try:
+                self.p.stdin.write(data)
+                self.p.stdin.flush()
+            except (BrokenPipeError, OSError):
                 return self._crashed(lines)
-            if l.startswith(b'. '):
-                self.live = int(l[7:])
-                break
-            out.append(l)
+            out = []
+            rd = self.p.stdout
+            while True:
+                l = rd.readline()
+                if not l:
+                    return self._crashed(lines)
+                if l.startswith(b'. '):
+                    self.live = int(l[7:])
+                    break
+                out.append(l)
+        except _Timeout:
+            self.p.kill()
+            self.p.wait()
+            self._stderr()
+            self.p = None
+            raise Crash('timeout: no answer within %ss (hang)' % (timeout or self.timeout), '', list(lines))
+        finally:
+            _arm(0)
         self.nscripts += 1
         if not parse:
             return out
